@@ -43,7 +43,17 @@ func safely(f func() error) (err error) {
 
 func c08One(ctx *Ctx, i int, rng *rand.Rand, allowStall bool) {
 	drv := i % 2
+	// directed family: a small request, more eligible hosts of the requested kind than asked for,
+	// some of them failing, and the requester already peered with hosts of another kind (the
+	// pool over-fetches candidates by the number of existing peers)
+	directed := (i/2)%4 == 3 && !allowStall
+	dirKind := []string{"geth", "parity"}[rng.Intn(2)]
+	dirOther := map[string]string{"geth": "parity", "parity": "geth"}[dirKind]
 	maxh := []int{0, 0, 1, 3}[rng.Intn(4)]
+	if directed {
+		maxh = []int{0, 0, 3}[rng.Intn(3)]
+		ctx.Count("directed-fallback")
+	}
 	w := newWorld(worldCfg{Drv: drv, Price: "1000", IntervalNs: 60e9, Settle: true, MaxHosts: maxh})
 	defer w.Close()
 	w.stallFor = 7 * time.Second
@@ -53,6 +63,9 @@ func c08One(ctx *Ctx, i int, rng *rand.Rand, allowStall bool) {
 	w.aliasAll()
 	desc := c08Desc{MaxHosts: maxh, Hosts: map[string]string{}}
 	nh := rng.Intn(len(c08Hosts) + 1)
+	if directed {
+		nh = len(c08Hosts)
+	}
 	hosts := append([]string{}, c08Hosts...)
 	rng.Shuffle(len(hosts), func(a, b int) { hosts[a], hosts[b] = hosts[b], hosts[a] })
 	hosts = hosts[:nh]
@@ -61,6 +74,15 @@ func c08One(ctx *Ctx, i int, rng *rand.Rand, allowStall bool) {
 	for _, h := range hosts {
 		kindOf[h] = []string{"geth", "geth", "parity"}[rng.Intn(3)]
 		stale[h] = rng.Intn(5) == 0
+	}
+	if directed {
+		nOther := 1 + rng.Intn(2)
+		for k, h := range hosts {
+			kindOf[h], stale[h] = dirKind, false
+			if k < nOther {
+				kindOf[h] = dirOther
+			}
+		}
 	}
 	// stale hosts check in first, then time passes
 	for _, h := range hosts {
@@ -84,7 +106,10 @@ func c08One(ctx *Ctx, i int, rng *rand.Rand, allowStall bool) {
 	self := "c1"
 	selfKind := []string{"geth", "parity"}[rng.Intn(2)]
 	registered := rng.Intn(12) != 0
-	if rng.Intn(8) == 0 && nh > 0 { // a host asking for peers
+	if directed {
+		selfKind, registered = dirKind, true
+	}
+	if !directed && rng.Intn(8) == 0 && nh > 0 { // a host asking for peers
 		self = hosts[0]
 	} else if registered {
 		if _, err := w.connect(self, false, selfKind, "", ""); err != nil {
@@ -94,7 +119,10 @@ func c08One(ctx *Ctx, i int, rng *rand.Rand, allowStall bool) {
 	// already-peered hosts
 	var peered []string
 	for _, h := range hosts {
-		if h != self && rng.Intn(4) == 0 {
+		if h != self && rng.Intn(4) == 0 && !directed {
+			peered = append(peered, h)
+		}
+		if directed && kindOf[h] == dirOther {
 			peered = append(peered, h)
 		}
 	}
@@ -109,7 +137,7 @@ func c08One(ctx *Ctx, i int, rng *rand.Rand, allowStall bool) {
 	connected := map[string]bool{}
 	for _, h := range hosts {
 		connected[h] = true
-		if rng.Intn(5) == 0 {
+		if rng.Intn(5) == 0 && !directed {
 			w.closeConn(h, 0)
 			connected[h] = false
 		}
@@ -123,6 +151,12 @@ func c08One(ctx *Ctx, i int, rng *rand.Rand, allowStall bool) {
 			outcome[h] = "err"
 		case r == 1 && allowStall:
 			outcome[h] = "stall"
+		}
+		if directed {
+			outcome[h] = "ack"
+			if kindOf[h] == dirKind && rng.Intn(5) < 2 {
+				outcome[h] = "err"
+			}
 		}
 		if hc := w.lastConn(h); hc != nil {
 			hc.agent.mu.Lock()
@@ -151,7 +185,9 @@ func c08One(ctx *Ctx, i int, rng *rand.Rand, allowStall bool) {
 	if self == "c1" && rng.Intn(5) == 0 {
 		via = "vipnode_client"
 	}
-	if via == "vipnode_peer" && rng.Intn(6) == 0 {
+	if directed {
+		num, kind, via = 1+rng.Intn(2), []string{dirKind, dirKind, ""}[rng.Intn(3)], "vipnode_peer"
+	} else if via == "vipnode_peer" && rng.Intn(6) == 0 {
 		// kinds no host has: other clients, other spellings (a kind is matched as the string it is)
 		kind = []string{"besu", "Geth", " geth", "geth-light", "pantheon"}[rng.Intn(5)]
 	}
